@@ -615,10 +615,17 @@ class Run:
         s.log("inv", hid)
         try:
             resp = self._call(op)
+        except Infra:
+            raise
+        except Exception as e:        # noqa: BLE001 - what a REAL operation raises is an observation, judged by the oracle
+            # ("no operation raises"): the operation gets the pseudo response ("raised", type) and the thread goes on with
+            # its next call, as an application that caught the exception would
+            rec["exc"] = f"{type(e).__name__}: {e}"
+            resp = ("raised", type(e).__name__)
         finally:
             if ti is not None:
                 self.cur.pop(ti, None)
-        if op[0] == "attend":
+        if op[0] == "attend" and "exc" not in rec:
             resp = tuple(rec["calls"])
         rec["resp"] = resp
         if ctx.get("closed"):
@@ -749,11 +756,16 @@ class Run:
                        "notification callback that waits for the application while an LDM lock is held, or a lock-order cycle)")
         elif s.abort_reason:
             raise Infra(f"scheduler aborted: {s.abort_reason}")
+        for r in self.history:
+            if "exc" in r:
+                bad.append(f"RAISED: operation {r['op']} raised {r['exc'][:200]} instead of answering (no operation raises)")
         for t in s.threads:
             if t.exc is not None:
                 bad.append(f"operation raised in {t.name}: {type(t.exc).__name__}: {t.exc}")
         if bad:
             return bad
+        if any("resp" not in r for r in self.history):
+            raise Infra(f"operation without a response in a run that neither raised nor deadlocked: {self.history}")
         ids = [r["resp"][0] for r in self.history if r["op"][0] in ("add", "dbins") and r["resp"]]
         if len(set(ids)) != len(ids):
             bad.append(f"identifiers not unique: {sorted(ids)}")
@@ -833,8 +845,8 @@ def detect_variants():
                                                      ["upd", 3, 0, 6], ["deregC", 4, 1], ["attend", 5], ["del", 6, 0]]]}
     r = Run(sc, dsched.Replay([]))
     store = r.final_key()[0]
-    h = {tuple(x["op"][:2]): x["resp"] for x in r.history}
-    errs = [t.exc for t in r.s.threads if t.exc is not None]
+    h = {tuple(x["op"][:2]): x.get("resp") for x in r.history}
+    errs = [t.exc for t in r.s.threads if t.exc is not None] + [x["exc"] for x in r.history if "exc" in x]
     return {
         "delete_by_id": store == () and not errs,
         "update_keeps_record": h.get(("upd", 3)) == (0,) and not errs,
@@ -1057,7 +1069,9 @@ def explore(ctx, sc, bound, cap, n_pct, observed, model=True):
     def handle(run):
         ctx.evals()
         # (an aborted run - deadlock - has operations without a response: no outcome string, the oracle reports it)
-        out = run.outcome() if not (sc.get("db_only") or sc.get("nomodel") or run.s.abort_reason) else None
+        # (so has a run in which an operation raised: the oracle reports it, there is no outcome to look up in the model)
+        broken = run.s.abort_reason or any("exc" in r or "resp" not in r for r in run.history)
+        out = run.outcome() if not (sc.get("db_only") or sc.get("nomodel") or broken) else None
         bad = run.judge(VARIANT)
         ctx.cover("runs_" + sc["name"].split("#")[0])
         ctx.cover("preemptions_%d" % min(dsched.preemptions(run.steps), 4))
